@@ -57,6 +57,7 @@ def parsePosting (s : String) : Option (Int × List Nat) :=
 def showRes : Except Err (List Nat) → String
   | .ok r => "ok " ++ showNats r
   | .error .noIndex => "err:noindex"
+  | .error .complexity => "err:complexity"
 
 def setIdx (idx : List (Nat × OMap)) (ix : Nat) (m : OMap) : List (Nat × OMap) :=
   (ix, m) :: idx.filter (fun p => p.1 != ix)
@@ -77,14 +78,14 @@ def step (c : Coll) (line : String) : Coll × String :=
       | some (f, []) =>
           let limit : Option (Option Nat) := if lim = "none" ∨ lim = "-" then some none else lim.toNat?.map some
           match which, limit with
-          | "first", some l => (c, showRes (queryIds c f l))
-          | "last", some l => (c, showRes (queryLastIds c f l))
-          | "all", _ => (c, showRes (queryAllIds c f))
+          | "first", some l => (c, showRes (apiQueryIds c f l))
+          | "last", some l => (c, showRes (apiQueryLastIds c f l))
+          | "all", _ => (c, showRes (apiQueryAllIds c f))
           | _, _ => (c, "bad-op")
       | _ => (c, "bad-op")
   | "s" :: lim :: cands :: rest =>
       match lim.toNat?, natList? cands, parseF rest with
-      | some l, some cs, some (f, []) => (c, showRes (searchFilter c f cs l))
+      | some l, some cs, some (f, []) => (c, showRes (guarded f (searchFilter c f cs l)))
       | _, _, _ => (c, "bad-op")
   | "k" :: which :: lim :: ix :: rest =>
       match lim.toNat?, ix.toNat?, parseRQ rest with
@@ -96,6 +97,10 @@ def step (c : Coll) (line : String) : Coll × String :=
               (c, "ok " ++ showNats (truncate desc (isort (fieldScanKeyOrderStop m q none l desc)) l))
       | _, _, _ => (c, "bad-op")
   | ["consts"] => (c, s!"MAX_SEARCH_LIMIT={maxSearchLimit}")
+  | "budget" :: rest =>
+      match parseF rest with
+      | some (f, []) => (c, if withinBudget f then "ok" else "err:complexity")
+      | _ => (c, "bad-op")
   | _ => (c, "bad-op")
 
 end AndaVerif.DrvC03
